@@ -1343,6 +1343,7 @@ class Exec(Engine):
         self.cur, self.cur_fkey = c, fkey
         self.cur_module = fkey.split(':')[0]
         self.loop_counter = 0
+        self.canary = []
         self.loop_ordinals = {}
         self.yield_counter = 0
         self.handler_stack = []
@@ -1378,6 +1379,8 @@ class Exec(Engine):
         return info
 
     def check_exit(self, c: Contract, st: State, binds, val: SV):
+        if not self.trial and self.ctx.finite:
+            self.canary.append(self.check_valid(st, z3.BoolVal(False))[0])
         rt = parse_type(c.returns)
         b2 = dict(binds)
         if rt.k != 'none':
@@ -1429,6 +1432,8 @@ class Exec(Engine):
             self.vc(st, g, name=f'frame[{p} unchanged]', kind='frame', serves=c.serves)
 
     def check_raise_exit(self, c: Contract, st: State, binds, info):
+        if not self.trial and self.ctx.finite:
+            self.canary.append(self.check_valid(st, z3.BoolVal(False))[0])
         exc = info['exc']
         matched_any = False
         rest = st
